@@ -103,7 +103,7 @@ func devScript(rng *plan.Rand, need int) []plan.DevStep {
 		if k > 0 {
 			s = append(s, plan.DevStep{D: k})
 		}
-		s = append(s, plan.DevStep{E: []string{"eof", "ueof", "err", "weof", "closed", "temp", "eagain", "eintr"}[rng.Intn(8)]})
+		s = append(s, plan.DevStep{E: []string{"eof", "ueof", "err", "weof", "closed", "temp", "eagain", "eintr", "isall", "wisall"}[rng.Intn(10)]})
 	case 3: // error together with bytes
 		k := rng.Range(1, need-1)
 		s = append(s, plan.DevStep{D: k, E: []string{"eof", "ueof", "err", "temp", "eagain"}[rng.Intn(5)]})
